@@ -25,6 +25,34 @@
 #include <cstring>
 #include <cstdlib>
 
+// ------------------------------------------------------------------------------------------------ ICP
+#include "ICP.h"
+#include "ip/Address.h"
+#include "http/RequestMethod.h"
+
+// ------------------------------------------------------------------------------------------------ HTCP
+// src/htcp.cc is part of this unit (static unpackers). The only change to its text: the single call
+// `method.HttpRequestMethodXXX(s->method)` at the end of htcpUnpackSpecifier also reports the unpacked
+// specifier to the harness (so the offsets are observable even when the URI is later refused).
+class htcpSpecifier;
+static const char *verifNote(htcpSpecifier *s, const char *m);
+#define HttpRequestMethodXXX(x) HttpRequestMethodXXX(verifNote(s.getRaw(), (x)))
+#include "../src/htcp.cc"
+#undef HttpRequestMethodXXX
+
+struct SpecNote { bool seen; const char *method, *uri, *version, *req_hdrs; size_t reqHdrsSz; };
+static SpecNote lastSpec;
+static const char *verifNote(htcpSpecifier *s, const char *m) {
+    lastSpec.seen = true; lastSpec.method = s->method; lastSpec.uri = s->uri; lastSpec.version = s->version;
+    lastSpec.req_hdrs = s->req_hdrs; lastSpec.reqHdrsSz = s->reqHdrsSz;
+    return m;
+}
+
+// main.cc is replaced by tests/stub_main_cc.o and this unit's main(); two objects of the squid link still want:
+bool Chrooted = false;
+extern "C" { struct verif_lt_sym { const char *name; void *address; };
+             verif_lt_sym lt__PROGRAM__LTX_preloaded_symbols[] = { { nullptr, nullptr } }; }
+
 // ------------------------------------------------------------------------------------------------ SNMP
 static std::string varSummary(struct variable_list *v) {
     std::ostringstream o;
@@ -76,6 +104,38 @@ struct RecvBuf {
     ~RecvBuf() { free(p); }
 };
 
+static const unsigned char STALE = 0xA5;   // stale content of a static receive buffer beyond the received bytes
+
+// a heap buffer standing for a static receive buffer: `size` bytes of stale content, at most size-1 received
+struct StaleBuf {
+    char *p; int len; std::string before;
+    StaleBuf(const std::string &d, size_t size) {
+        p = static_cast<char *>(malloc(size));
+        memset(p, STALE, size);
+        len = d.size() < size - 1 ? d.size() : size - 1;
+        memcpy(p, d.data(), len);
+        before.assign(p, size);
+    }
+    std::string diff() const {
+        std::ostringstream o; bool any = false;
+        for (size_t i = 0; i < before.size(); ++i)
+            if (p[i] != before[i]) { o << (any ? "," : "") << i; any = true; }
+        return any ? o.str() : "-";
+    }
+    ~StaleBuf() { free(p); }
+};
+
+static std::string cstrAt(const char *base, const char *s) {
+    std::ostringstream o; o << (s - base) << ":" << strlen(s); return o.str();
+}
+
+static std::string specText(const char *base) {
+    std::ostringstream o;
+    o << "m=" << cstrAt(base, lastSpec.method) << " u=" << cstrAt(base, lastSpec.uri) << " v=" << cstrAt(base, lastSpec.version)
+      << " h=" << cstrAt(base, lastSpec.req_hdrs) << "/" << lastSpec.reqHdrsSz;
+    return o.str();
+}
+
 int main() {
     std::string line;
     while (std::getline(std::cin, line)) {
@@ -87,6 +147,42 @@ int main() {
             if (op == "snmp.udp" || op == "snmp.exact") {
                 RecvBuf b(unhex(a[1]), SNMP_REQUEST_SIZE, op == "snmp.exact");
                 o << snmpDecode(b.p, b.len);
+            } else if (op == "icp.udp") {
+                // as icpHandleUdp: LOCAL_ARRAY(char, buf, SQUID_UDP_SO_RCVBUF), recvfrom(.., SQUID_UDP_SO_RCVBUF - 1), buf[len] = 0
+                StaleBuf b(unhex(a[1]), SQUID_UDP_SO_RCVBUF);
+                b.p[b.len] = '\0';
+                icp_common_t header(b.p, b.len);
+                o << "len=" << header.length << " op=" << int(header.opcode) << " ver=" << int(header.version)
+                  << " reqnum=" << header.reqnum << " flags=" << header.flags << " pad=" << header.pad << " gop=" << int(header.getOpCode());
+                if (b.len > 0 && size_t(b.len) >= sizeof(icp_common_t) && b.len == header.length) {   // the guards of icpHandleUdp / icpHandleIcpV2
+                    Ip::Address from;
+                    const char *url = icpGetUrl(from, b.p, header);
+                    if (url) o << " url=" << cstrAt(b.p, url); else o << " url=null";
+                } else o << " url=skip";
+            } else if (op == "htcp.spec" || op == "htcp.detail" || op == "htcp.msg") {
+                // as htcpRecv: static char buf[8192], recvfrom(.., sizeof(buf) - 1)
+                StaleBuf b(unhex(a[1]), 8192);
+                lastSpec.seen = false;
+                if (op == "htcp.spec") {
+                    const auto s = htcpUnpackSpecifier(b.p, b.len);
+                    if (lastSpec.seen) o << "unpacked " << specText(b.p); else o << "fail";
+                    o << " diff=" << b.diff() << " req=" << (s ? 1 : 0);
+                } else if (op == "htcp.detail") {
+                    htcpDetail *d = htcpUnpackDetail(b.p, b.len);
+                    if (d) {
+                        o << "unpacked r=" << (d->resp_hdrs - b.p) << ":" << d->respHdrsSz << " e=" << (d->entity_hdrs - b.p) << ":" << d->entityHdrsSz
+                          << " c=" << (d->cache_hdrs - b.p) << ":" << d->cacheHdrsSz << " cstr=" << strlen(d->resp_hdrs) << "," << strlen(d->entity_hdrs) << "," << strlen(d->cache_hdrs);
+                        delete d;
+                    } else o << "fail";
+                    o << " diff=" << b.diff();
+                } else {
+                    Ip::Address from;
+                    old_squid_format = 7;
+                    htcpHandleMsg(b.p, b.len, from);
+                    o << "fmt=" << old_squid_format << " spec=";
+                    if (lastSpec.seen) o << specText(b.p); else o << "none";
+                    o << " diff=" << b.diff();
+                }
             } else {
                 o << "ERR unknown-entry";
             }
